@@ -28,20 +28,26 @@ def _load():
     return variants
 
 
-def _one(prop, kind, idx, rel, old, new, expect):
+def _one(prop, kind, idx, rel, old, new, expect, base_patch=None):
     src_root = REPO
     path = os.path.join(src_root, rel)
-    try:
-        text = open(path, encoding="utf-8").read()
-    except OSError:
-        return dict(kind=kind, idx=idx, rel=rel, status="not-applicable", why="file missing")
-    olds, news = old.split("|||"), new.split("|||")      # a variant may consist of several cooperating edits
-    if len(olds) != len(news) or any(o not in text for o in olds):
-        return dict(kind=kind, idx=idx, rel=rel, status="not-applicable", why="anchor text not present on the current tree")
     d = tempfile.mkdtemp(prefix="aoself_%s_" % prop)
     try:
         shutil.copytree(os.path.join(src_root, "aotools"), os.path.join(d, "aotools"),
                         ignore=shutil.ignore_patterns("__pycache__"))
+        if base_patch:
+            # the variant is an edit of a (kept, behaviour-preserving) refactoring of the tree, not of the tree itself
+            ap = subprocess.run(["git", "apply", "--whitespace=nowarn", os.path.join(VERIF, base_patch)], cwd=d, capture_output=True, text=True)
+            if ap.returncode:
+                return dict(kind=kind, idx=idx, rel=rel, status="not-applicable", why="base patch %s no longer applies" % base_patch)
+            path = os.path.join(d, rel)
+        try:
+            text = open(path, encoding="utf-8").read()
+        except OSError:
+            return dict(kind=kind, idx=idx, rel=rel, status="not-applicable", why="file missing")
+        olds, news = old.split("|||"), new.split("|||")      # a variant may consist of several cooperating edits
+        if len(olds) != len(news) or any(o not in text for o in olds):
+            return dict(kind=kind, idx=idx, rel=rel, status="not-applicable", why="anchor text not present on the current tree")
         mod = text
         for o, n in zip(olds, news):
             mod = mod.replace(o, n, 1)
@@ -147,6 +153,10 @@ def run(prop):
     seeded = v.SEEDED.get(prop, [])
     benign = v.BENIGN.get(prop, [])
     jobs = [("seeded", i) + tuple(x) for i, x in enumerate(seeded)] + [("benign", i) + tuple(x) + (None,) for i, x in enumerate(benign)]
+    # seeded variants of a refactored tree: (base patch, file, old, new, expected rule)
+    for i, (bp, rel_, old_, new_, exp_) in enumerate(getattr(v, "SEEDED_ON", {}).get(prop, [])):
+        jobs.append(("seeded", 1000 + i, rel_, old_, new_, exp_, bp))
+        seeded = list(seeded) + [None]
     seed = int(os.environ.get("VERIF_SEED", "0") or 0)
     if seed:
         import random
